@@ -26,7 +26,7 @@ func (s CredState) String() string { return [...]string{"live", "spent", "dead"}
 type Expectation int
 
 const (
-	Unspec Expectation = iota
+	Unspec  Expectation = iota
 	Must                // must be honoured / reported active
 	MustNot             // must be refused / reported inactive
 )
@@ -34,27 +34,28 @@ const (
 func (e Expectation) String() string { return [...]string{"unspec", "must", "mustnot"}[e] }
 
 type Grant struct {
-	N         int
-	Client    string
-	Origin    string // code | hybrid | implicit | password | client_credentials | device | jwt_bearer
-	Subject   string
-	Scopes    []string
-	Audience  []string
-	Nonce     string
-	State     string
-	Redirect  string // redirect_uri exactly as sent in the authorization request ("" = not sent)
-	Challenge string
-	Method    string
-	OpenID    bool
-	ViaPAR    bool
-	Creds     []*Cred
-	Unspec    bool // a fault made the grant's server-side state unknowable
-	AuthTime  time.Time
-	ReqAt     time.Time
-	PresetIDExp time.Time
+	N             int
+	Client        string
+	Origin        string // code | hybrid | implicit | password | client_credentials | device | jwt_bearer
+	Subject       string
+	Scopes        []string
+	Audience      []string
+	Nonce         string
+	State         string
+	Redirect      string // redirect_uri exactly as sent in the authorization request ("" = not sent)
+	Challenge     string
+	Method        string
+	OpenID        bool
+	ViaPAR        bool
+	Creds         []*Cred
+	Unspec        bool // a fault made the grant's server-side state unknowable
+	AuthTime      time.Time
+	ReqAt         time.Time
+	PresetIDExp   time.Time
 	FailedRedeems int
 	FailedPKCE    int
-	Params    map[string]string // other request parameters that matter (max_age, prompt, response_type...)
+	Faulted       bool              // a storage fault hit a request of this grant
+	Params        map[string]string // other request parameters that matter (max_age, prompt, response_type...)
 }
 
 type Cred struct {
